@@ -1,5 +1,6 @@
 import PyTrie.Lemmas.WalkProofs
 import PyTrie.Lemmas.WalkConcrete
+import PyTrie.Lemmas.ReadPartial
 import PyTrie.Props.C08
 /-! # C09 — a fog-guided walk finds everything, even while the trie changes
 
@@ -111,5 +112,26 @@ theorem concrete_sound (sched : List (Node × Path)) (s' : CState)
   obtain ⟨e, he, hne, hg⟩ := sound sched' (toW s') hcan' hr k v hm
   obtain ⟨e0, he0, h0⟩ := List.mem_map.mp (hV e he)
   exact ⟨e0, he0, hne, by rw [h0]; exact hg⟩
+
+end PyTrie.Props.C09
+
+/-! ## A stale cached parent over the current database (raw level)
+
+What a `TrieFrontierCache` entry holds is a node object of an *older* version. `traverse_from(parent, segment)` reads the
+children of that node from the database **as it is now**. Because nodes are addressed by the hash of their content, the
+current database either still holds the body of each child it needs — then the result is what the older version says — or
+it does not (pruned) — then `MissingTraversalNode` names the first absent one; it can never produce a description that
+belongs to neither. `PartialD H db parent`: whatever `db` holds under the hash of a hashed subtree of `parent` is that
+subtree's encoding (true of any database obtained from consistent writes and removals: `Free.partial_kept_by_*`). -/
+namespace PyTrie.Props.C09
+open PyTrie PyTrie.Hex PyTrie.HexD PyTrie.HexRaw
+
+theorem stale_parent_truthful (H : Bytes → Bytes) (hlen : ∀ b, (H b).length = 32) (db : Db) (parent : Node) (hc : Canon parent)
+    (hst : PartialD H db parent) (seg : Path) (fuel : Nat) (hf : seg.length < fuel) :
+    traverseOutD H db fuel (toItem H parent) seg =
+      match firstMissingRead H db parent seg [] with
+      | some (h, pre) => .error (.missing h pre)
+      | none => .ok (TravOut.toD H (traverseOut parent seg)) :=
+  traverseOutD_partial H hlen db parent hc hst seg fuel hf
 
 end PyTrie.Props.C09
